@@ -243,6 +243,10 @@ def oracle_det(rng, sets, n=4):
                 for nm, tc in (('CNOT', tt), ('CNOT_inv', tt), ('ECR', tt - TG), ('ECR_inv', tt + TG)):
                     args = (a, b, tt, p2, pc, pt, T1c, T2c, T1t, T2t)
                     chk.append((nm, getattr(g, nm)(*args), getattr(nf, nm)(a, b, tt, 0, 0, 0, 0, 0, 0, 0), det_pred(4, [(tc, E1c), (tc, E1t)]), args))
+                    # a short but valid gate time (the CR pulses last less than one single-qubit gate): same law with the real durations
+                    ts = 1.2e-7
+                    args = (a, b, ts, p2, pc, pt, T1c, T2c, T1t, T2t); tcs = {'CNOT': ts, 'CNOT_inv': ts, 'ECR': ts - TG, 'ECR_inv': ts + TG}[nm]
+                    chk.append((nm, getattr(g, nm)(*args), getattr(nf, nm)(a, b, ts, 0, 0, 0, 0, 0, 0, 0), det_pred(4, [(tcs, E1c), (tcs, E1t)]), args))
                     # a good coupler next to a noisy qubit (calibration of bundled backends has this): the two-qubit error is smaller than
                     # the single-qubit errors it is compared with, the derived residual error is below zero -- still a finite gate, same law
                     args = (a, b, tt, 0.0102, 0.0120, 0.0005, T1c, T2c, T1t, T2t)
